@@ -349,6 +349,21 @@ def case_c2a(k, tag):
                 key=('c2a', k, repr(tag)), desc={'op': 'c2a', 'k': k, 'tag': [tag[0], tag[1], tag[2], bytes(tag[3]).hex()]})
 
 
+def case_table(ident, cls):
+    """the class's whole translate table, in the order expand_enumerations builds it: for every entry the number its
+    name maps to now, and the name that number maps back to"""
+    def f():
+        cls()                                   # makes sure _xlate_table is expanded
+        x = cls._xlate_table
+        out = []
+        for c in cls.__mro__:
+            for name in getattr(c, 'enumerations', {}):
+                out += [x[name]] + canon_str(x[x[name]])
+        return out
+    return Case('table', 'canon_res (fun x => x) (Ok (table_dump %s))' % ident, canon_call(f, list), key=('table', ident),
+                desc={'op': 'table', 'class': ident})
+
+
 def case_ctor(kind, cls, args):
     exp = impl_ctor(kind, cls, args)
     if kind == 'unsigned':
@@ -445,7 +460,7 @@ OCT6 = [0, 1, 127, 128, 254, 255]
 def tuple4_pool(rng, quick):
     out = []
     if quick:
-        for _ in range(150):
+        for _ in range(80):
             out.append(tuple(rng.choice(OCT6) for _ in range(4)))
     else:
         for a in OCT6:
@@ -492,8 +507,9 @@ def cases(rng, tier):
     produced = []          # (kspec, octets, ctx) of successful encodings, decoded again below
 
     def all_modes(spec, nctx=1):
-        out.append(case_enc(spec))
         c = case_oct(spec, None)
+        if c.expected[0] == 1 or not quick or rng.random() < 0.3:
+            out.append(case_enc(spec))
         out.append(c)
         if c.expected[0] == 0:
             produced.append((kspec_of(spec), bytes(c.expected[1:]), False))
@@ -526,7 +542,7 @@ def cases(rng, tier):
     for z in [-1, 0, 255, 2 ** 32 - 1, 2 ** 32, 2 ** 40]:
         out.append(case_ctor('unsigned', None, z))
     # floats
-    for d in float_pool(rng, 60 if quick else 3000):
+    for d in float_pool(rng, 30 if quick else 3000):
         all_modes(('real', d), nctx=1)
     for d in float_pool(rng, 10 if quick else 300) + [rng.getrandbits(64) for _ in range(40 if quick else 2000)]:
         all_modes(('double', d), nctx=1)
@@ -549,14 +565,18 @@ def cases(rng, tier):
     for ident, cls in classes()['bits'].items():
         for _ in range(2):
             all_modes(('bits', [rng.randrange(2) for _ in range(cls.bitLen)], ident))
-    # enumerations: every name and number of every table
+    # enumerations: the whole table of every class in one case each (both directions, through the model's own
+    # lookups), then per class a sample of names / numbers / boundary numbers through encode, constructor, decode
+    full = ('E_primitivedata_ObjectType', 'E_basetypes_SecurityLevel', 'E_basetypes_Segmentation')
     for ident, cls in classes()['enum'].items():
+        out.append(case_table(ident, cls))
         vals, tbl = enum_values(cls, rng)
-        big = len(vals) > 80 and quick
+        names = [v for v in vals if isinstance(v, str) and v in tbl]
+        nums = sorted(set(tbl.values()))
+        special = vals[len(names) + len(nums):]
+        if quick and ident not in full:
+            vals = rng.sample(names, min(3, len(names))) + rng.sample(nums, min(2, len(nums))) + rng.sample(special, 3) + [2 ** 32]
         for v in vals:
-            if big and rng.random() < 0.7 and v not in (2 ** 32, 'noSuchName', -1):
-                # large tables (PropertyIdentifier ...): every entry is still checked by the direct predicate
-                continue
             spec = ('enum', ident, v)
             out.append(case_enc(spec))
             out.append(case_ctor('enum', ident, v))
@@ -575,7 +595,7 @@ def cases(rng, tier):
         all_modes(('date', t))
         all_modes(('time', t))
     # object identifiers
-    for t, i in objid_pool(rng, 150 if quick else 5000):
+    for t, i in objid_pool(rng, 60 if quick else 5000):
         all_modes(('objid', t, i))
         out.append(case_ctor('objid', None, (t, i)))
 
